@@ -300,7 +300,7 @@ def load_corpus():
     cases = []
     if os.path.isdir(CORPUS):
         for i, fn in enumerate(sorted(os.listdir(CORPUS))):
-            if fn.endswith(".json"):
+            if fn.endswith(".json") and not fn.startswith("seq_"):       # seq_*: histories, see run_sequences
                 try:
                     j = json.load(open(os.path.join(CORPUS, fn)))
                     c = ffigen.Case.from_json(j["case"] if "case" in j else j, cid="k%03d" % i)
